@@ -88,13 +88,20 @@ def gen_sgrid(rng, kind=None, words=None, space=None):
         entries.append(f"{cell}:{sp}{node} (padding:{sp}{w})")
         nodes.append(node)
     attrs = {"cf_role": "grid_topology", "topology_dimension": 3 if kind == "3d" else (1 if kind == "1d" else 2)}
+    # the face / volume entries pair each cell dimension with its node dimension BY NAME; the order in
+    # which they are listed need not be that of node_dimensions
+    def listed(es):
+        es = list(es)
+        if rng.random() < 0.5:
+            rng.shuffle(es)
+        return " ".join(es)
     if kind == "3d":
         attrs["node_dimensions"] = " ".join(nodes)
-        attrs["volume_dimensions"] = " ".join(entries)
+        attrs["volume_dimensions"] = listed(entries)
     else:
         k = 1 if kind == "1d" else 2
         attrs["node_dimensions"] = " ".join(nodes[:k])
-        attrs["face_dimensions"] = " ".join(entries[:k])
+        attrs["face_dimensions"] = listed(entries[:k])
         if kind == "2dv":
             attrs["vertical_dimensions"] = entries[2]
     conv = rng.choice(["SGRID-0.3", "CF-1.6, SGRID-0.3", "sgrid"])
@@ -107,9 +114,17 @@ def generate(rng, tier):
     for i in range(n):
         c = gen_comodo(rng) if i % 2 else gen_sgrid(rng)
         r = rng.random()
-        if r < 0.06:
+        if r < 0.03:
             c["user"] = c["topo"]
             c["topo"] = None                          # conflict: must be refused
+        elif r < 0.06:
+            # user coords for an axis the metadata does not mention: still a conflict, not a merge
+            if c["conv"] is None:
+                c["dims"].append(["w_extra", 2, None, None])
+            else:
+                c["sizes"] = c.get("sizes", []) + [["w_extra", 2]]
+            c["user"] = [["W", [["center", "w_extra"]]]]
+            c["topo"] = None
         elif r < 0.09 and c["conv"] is None and c["dims"]:
             d = rng.choice(c["dims"])
             if d[3] is not None:
